@@ -310,7 +310,10 @@ let io_event (e : Io.ev) : string =
 let io_run_ops file =
   let ic = open_in file in
   let w = ref world0 in
-  let maps : (string, (Io.mp * string * string)) Hashtbl.t = Hashtbl.create 8 in   (* mid -> state, dir, name *)
+  let maps : (string, (Io.mp * string * string)) Hashtbl.t = Hashtbl.create 8 in   (* open handles: mid -> state, dir, name *)
+  let disk : (string * string, Io.st) Hashtbl.t = Hashtbl.create 8 in             (* (dir, name) -> the files a closed session left *)
+  let mutated : (string * string, ((string * int) * n) list) Hashtbl.t = Hashtbl.create 8 in   (* outstanding `mutate`s: (ext, pos) -> original byte *)
+  let n_open = ref 0 and n_open_bad = ref 0 and n_open_rej = ref 0 and n_open_mut = ref 0 in
   let dbdirs : (string, string) Hashtbl.t = Hashtbl.create 4 in
   let tracing = ref false in
   let pending : string list ref = ref [] in      (* events since the last drain, newest first *)
@@ -335,7 +338,23 @@ let io_run_ops file =
              Buffer.add_string xc (Printf.sprintf "render_differs %s map=%s io=(%s %s %s) render=(%s %s %s)\n" why mid (sum ih) (sum ik) (sum iv) (sum rh) (sum rk) (sum rv))
            end
          | _ -> incr n_render_bad; Buffer.add_string xc (Printf.sprintf "render_failed %s map=%s\n" why mid))
-      | None -> ()) maps in
+      | None -> ()) maps;
+    (* the files of closed maps against the record-level model's closed stores (not while a `mutate` is outstanding) *)
+    Hashtbl.iter (fun (d, nm) (st : Io.st) ->
+      if not (Hashtbl.mem mutated (d, nm)) then
+        match snd (step !w (OSnap (bytes_of_string d))) with
+        | RSnap l ->
+          (match List.assoc_opt (bytes_of_string nm) l with
+           | Some (Some ((rh, rk), rv)) ->
+             incr n_render;
+             let ((ih, ik), iv) = Io.st_images st in
+             if not (ih = rh && ik = rk && iv = rv) then begin
+               incr n_render_bad;
+               Buffer.add_string xc (Printf.sprintf "render_differs(closed) %s map=%s/%s io=(%s %s %s) render=(%s %s %s)\n" why d nm (sum ih) (sum ik) (sum iv) (sum rh) (sum rk) (sum rv))
+             end
+           | Some None -> incr n_render; incr n_render_bad; Buffer.add_string xc (Printf.sprintf "render_failed(closed) %s map=%s/%s\n" why d nm)
+           | None -> ())
+        | _ -> ()) disk in
   let lineno = ref 0 in
   let record_level line (mine : string) =
     (* the same call on the record-level model *)
@@ -371,12 +390,46 @@ let io_run_ops file =
            | "map" ->
              let p = parse_params (a 5) in
              let bk = function BAuto -> Io.BufAuto | _ -> Io.BufSized in
-             if Hashtbl.fold (fun _ (_, d, nm) acc -> acc || (d = Hashtbl.find dbdirs (a 2) && nm = a 4)) maps false then "unsupported:reopen"
+             let dir = Hashtbl.find dbdirs (a 2) and nm = a 4 and t0 = parse_kt (a 3) in
+             if Hashtbl.fold (fun _ (_, d, nm') acc -> acc || (d = dir && nm' = nm)) maps false then "unsupported:share"
+             else if Hashtbl.mem disk (dir, nm) then begin
+               (* the files of an earlier session: Io.open_existing; the bucket parameter is not even passed, the buffer
+                  parameters give the chunk sizes of this session *)
+               let old = Hashtbl.find disk (dir, nm) in
+               let s0 = Io.reopen_st old.Io.s_key.Io.fb old.Io.s_val.Io.fb old.Io.s_htx.Io.fb (bk p.p_key) (bk p.p_val) (bk p.p_htx) in
+               let verdict = open_files t0 (Io.st_images s0) in
+               let pristine = not (Hashtbl.mem mutated (dir, nm)) in
+               match Io.open_existing t0 s0 with
+               | Ok (o, s1) ->
+                 incr n_open;
+                 let agree = (match o, verdict with
+                   | Io.Opened _, Accepted | Io.RejectedAt _, Rejected | Io.FreshFile _, Fresh -> true
+                   | _ -> false) in
+                 (if not agree then begin
+                    incr n_open_bad;
+                    Buffer.add_string xc (Printf.sprintf "open_differs line=%d Io.open_existing=%s Open.open_files=%s\n" !lineno
+                      (match o with Io.Opened _ -> "Opened" | Io.RejectedAt f -> "RejectedAt:" ^ io_file_name f | Io.FreshFile f -> "FreshFile:" ^ io_file_name f)
+                      (match verdict with Accepted -> "Accepted" | Rejected -> "Rejected" | ShortRead -> "ShortRead" | Fresh -> "Fresh"))
+                  end);
+                 (match o with
+                  | Io.Opened m ->
+                    Hashtbl.remove disk (dir, nm);
+                    Hashtbl.replace maps (a 1) (m, dir, nm);
+                    ignore (collect (a 1) m); record_level line "ok"; "ok"
+                  | Io.RejectedAt _ | Io.FreshFile _ ->
+                    (if !tracing then pending := List.rev_append (List.map io_event (List.rev s1.Io.s_log)) !pending);
+                    Hashtbl.replace disk (dir, nm) (Io.clear_log s1);    (* what the model says the rejected open left *)
+                    let out = (match o with Io.RejectedAt _ -> incr n_open_rej; "panic:BadSig" | Io.FreshFile f -> "unsupported:fresh:" ^ io_file_name f | _ -> assert false) in
+                    (* a mutated byte is unknown to the record-level model: its world stays as it is, as after a panic *)
+                    (if pristine then record_level line out else incr n_open_mut);
+                    out)
+               | Panic tg -> "panic:" ^ tagname tg | IoErr -> "err" | OutOfFuel -> "hang"
+             end
              else
              (match buckets_of_param p.p_buckets with
               | Ok nb ->
                 of_res (Io.create (parse_kt (a 3)) nb (bk p.p_key) (bk p.p_val) (bk p.p_htx)) (fun m ->
-                  Hashtbl.replace maps (a 1) (m, Hashtbl.find dbdirs (a 2), a 4);
+                  Hashtbl.replace maps (a 1) (m, dir, nm);
                   ignore (collect (a 1) m); record_level line "ok"; "ok")
               | Panic tg -> "panic:" ^ tagname tg | _ -> "err")
            | "put" -> on_map (fun mid m -> of_res (Io.put m (unhex (a 2)) (unhex (a 3))) (fun m' -> ignore (collect mid m'); "ok"))
@@ -391,14 +444,45 @@ let io_run_ops file =
            | "stats" -> on_map (fun mid m -> of_res (Io.stats_of m) (fun (st, m') -> ignore (collect mid m'); print_out FIter (RStats st)))
            | "iotrace" -> tracing := (a 1 = "on"); pending := []; "ok"
            | "iodrain" -> let l = List.rev !pending in pending := []; String.concat " " ("io" :: l)
-           | "closeall" | "drop" | "dropdb" -> render_check (Printf.sprintf "line=%d" !lineno); record_level line "ok"; "ok"
+           | "closeall" ->
+             render_check (Printf.sprintf "line=%d" !lineno);
+             (* the drop of the handles performs no traced I/O; the files stay as they are *)
+             Hashtbl.iter (fun _ ((m : Io.mp), d, nm) -> Hashtbl.replace disk (d, nm) (Io.clear_log m.Io.m_st)) maps;
+             Hashtbl.reset maps;
+             record_level line "ok"; "ok"
+           | "drop" | "dropdb" -> render_check (Printf.sprintf "line=%d" !lineno); record_level line "ok"; "ok"
+           | "mutate" ->
+             (* mutate <dir> <name>.<ext> <pos> <byte>: one byte of a closed file *)
+             let d = a 1 in
+             (match String.rindex_opt (a 2) '.' with
+              | None -> "skip:mutate"
+              | Some i ->
+                let nm = String.sub (a 2) 0 i and ext = String.sub (a 2) (i + 1) (String.length (a 2) - i - 1) in
+                let pos = int_of_string (a 3) and nb = n_of_int (int_of_string (a 4)) in
+                (match Hashtbl.find_opt disk (d, nm) with
+                 | None -> "skip:mutate"
+                 | Some st ->
+                   let orig = ref N0 in
+                   let chg (f : Io.file) = { f with Io.fb = List.mapi (fun j x -> if j = pos then (orig := x; nb) else x) f.Io.fb } in
+                   let st' = (match ext with
+                     | "key" -> { st with Io.s_key = chg st.Io.s_key }
+                     | "val" -> { st with Io.s_val = chg st.Io.s_val }
+                     | "htx" -> { st with Io.s_htx = chg st.Io.s_htx }
+                     | _ -> failwith "mutate ext") in
+                   Hashtbl.replace disk (d, nm) st';
+                   let l = (try Hashtbl.find mutated (d, nm) with Not_found -> []) in
+                   let first = (try List.assoc (ext, pos) l with Not_found -> !orig) in
+                   let l = List.remove_assoc (ext, pos) l in
+                   let l = if first = nb then l else ((ext, pos), first) :: l in
+                   (if l = [] then Hashtbl.remove mutated (d, nm) else Hashtbl.replace mutated (d, nm) l);
+                   "ok"))
            | "snap" ->
              render_check (Printf.sprintf "line=%d" !lineno);
              incr snapno;
-             let l = Hashtbl.fold (fun _ (m, d, nm) acc -> if d = a 1 then (nm, m) :: acc else acc) maps [] in
+             let l = Hashtbl.fold (fun _ (m, d, nm) acc -> if d = a 1 then (nm, Io.images m) :: acc else acc) maps [] in
+             let l = Hashtbl.fold (fun (d, nm) st acc -> if d = a 1 then (nm, Io.st_images st) :: acc else acc) disk l in
              let l = List.sort (fun (x, _) (y, _) -> compare x y) l in
-             "snap" ^ String.concat "" (List.map (fun (nm, m) ->
-               let ((h, k), v) = Io.images m in
+             "snap" ^ String.concat "" (List.map (fun (nm, ((h, k), v)) ->
                (match !dumpdir with
                 | Some d ->
                   let dir = Printf.sprintf "%s/snap%d" d !snapno in
@@ -423,7 +507,8 @@ let io_run_ops file =
   match Sys.getenv_opt "VERIF_IO_XCHECK" with
   | Some path ->
     let oc = open_out path in
-    Printf.fprintf oc "summary api_calls=%d api_differ=%d render_checks=%d render_differ=%d\n" !n_api !n_api_bad !n_render !n_render_bad;
+    Printf.fprintf oc "summary api_calls=%d api_differ=%d opens_of_existing=%d open_differ=%d opens_rejected=%d opens_of_mutated_files=%d render_checks=%d render_differ=%d\n"
+      !n_api !n_api_bad !n_open !n_open_bad !n_open_rej !n_open_mut !n_render !n_render_bad;
     output_string oc (Buffer.contents xc);
     close_out oc
   | None -> ()
